@@ -46,6 +46,9 @@ def rep(*args):
     return cdump(args)
 
 
+rep0 = rep1 = rep2 = rep3 = rep4 = rep5 = rep6 = repv = dup = rept = helper_rep = rep
+
+
 def same(modname, attr, obj):
     """is obj the very object CPython resolves modname.attr to?"""
     m = sys.modules.get(modname)
